@@ -33,6 +33,8 @@ type c08In struct {
 	PB   string `json:"pb,omitempty"` // declarations of the parent element
 	// After is a later rule for the probe element, common to both documents
 	After string `json:"after,omitempty"`
+	// AfterB is a later rule for the probe element of document B only (B's !important declarations must beat it)
+	AfterB string `json:"after_b,omitempty"`
 	// Decl: compare the PreprocessDeclarations outputs as well (spellings that must not even change the typed declarations)
 	Decl bool `json:"decl,omitempty"`
 	// Expect: properties that the reference block A must declare with a typed value (it is valid CSS)
@@ -124,6 +126,7 @@ func init() {
 			m["decl_pairs"] = 9000 * scale
 			m["effect_cases"] = 8000 * scale
 			m["important_observable"] = 300 * scale
+			m["important_beats_later_rule"] = 300 * scale
 			// every generator of the tables must have been exercised as the principal property of a case
 			m["longhands_exercised"] = int64(len(longhandNames))
 			m["shorthands_exercised"] = int64(len(shorthandNames))
@@ -157,6 +160,9 @@ func check(raw json.RawMessage) fw.Result {
 		}
 		if in.After != "" {
 			s += fmt.Sprintf("  later rule: p{%s}", in.After)
+		}
+		if in.AfterB != "" {
+			s += fmt.Sprintf("  later rule in B only: p{%s}", in.AfterB)
 		}
 		return s
 	}
@@ -210,7 +216,7 @@ func check(raw json.RawMessage) fw.Result {
 	if err != nil {
 		return fw.Result{Verdict: fw.Inconclusive, Msg: err.Error()}
 	}
-	sB, err := computedStyle(in.PB, in.B, in.After)
+	sB, err := computedStyle(in.PB, in.B, in.After+in.AfterB)
 	if err != nil {
 		return fw.Result{Verdict: fw.Inconclusive, Msg: err.Error()}
 	}
@@ -229,6 +235,9 @@ func check(raw json.RawMessage) fw.Result {
 		}
 		res.Fail(in.Rel+"-computed", fmt.Sprintf("computed style differs: %s%s: %s", strings.Join(d, "; "), more, witness()))
 		return res
+	}
+	if in.AfterB != "" {
+		res.Count("important_beats_later_rule", 1)
 	}
 	if in.PA == "" && in.After == "" {
 		if len(diffStyles(sA, baselineStyle())) > 0 {
